@@ -190,3 +190,78 @@ pub fn repo_scripts() -> Vec<(String, String)> {
     walk(&std::path::Path::new(&root).join("tests/scripts"), &mut out);
     out
 }
+
+/// hostile literals: char-list / byte-list / number tokens assembled from escape, code-point and digit
+/// fragments (valid, boundary and malformed), alone or inside a small program
+pub fn literal_soup(r: &mut Rng) -> String {
+    const FRAG: [&str; 52] = [
+        "a", "é", "😀", " ", "\\n", "\\t", "\\r", "\\0", "\\\\", "\\\"", "\\'", "\\q", "\\", "\\u{41}", "\\u{}", "\\u{D800}", "\\u{DFFF}", "\\u{DBFF}", "\\u{D7FF}", "\\u{E000}", "\\u{10FFFF}",
+        "\\u{110000}", "\\u{FFFFFFFF}", "\\u{7FFFFFFF}", "\\u{80000000}", "\\u{-1}", "\\u{1.5}", "\\u{zz}", "\\u{41", "\\u41}", "\\u{{41}}", "\\u{0041 }", "\\u", "{", "}", "\n", "\t", "'", "\"\"", "0",
+        "255", "256", "-1", "02_11", "1e5", "999999999999", "\\u{0}", "\\u{d800}", "\\u{FFFF}", "\\u{1_0}", "_", ".",
+    ];
+    const NUMS: [&str; 40] = [
+        "0", "00", "2147483647", "2147483648", "99999999999999999999", "1_000", "1__0", "1_", "02_1111", "02_2", "016_FF", "016_fg", "036_zz", "037_1", "01_0", "00_0", "0_5", "08_77", "010_9", "020_11", "1.5", "1.", "1.5.5",
+        "1e5", "1e", "1e+5", "1e-5", "1e999", "1.5e3", "0.0000001", "1_0.5", "02_1.1", "9.9e307", "1e308", "4e-324", "0e0", "12abc", "1a", "0x10", "1_e5",
+    ];
+    let lit = match r.below(5) {
+        0 | 1 => {
+            let q = *r.pick(&[1usize, 1, 3, 4]);
+            let n = r.below(5);
+            let body: String = (0..n).map(|_| *r.pick(&FRAG)).collect();
+            format!("{}{}{}", "\"".repeat(q), body, "\"".repeat(q))
+        }
+        2 => {
+            let q = *r.pick(&[1usize, 1, 2, 3]);
+            let n = r.below(5);
+            let body: Vec<&str> = (0..n).map(|_| *r.pick(&FRAG)).collect();
+            format!("{}{}{}", "'".repeat(q), body.join(if q >= 2 { " " } else { "" }), "'".repeat(q))
+        }
+        3 => (*r.pick(&NUMS)).to_string(),
+        _ => {
+            // unterminated / oddly quoted
+            let n = r.below(4);
+            let body: String = (0..n).map(|_| *r.pick(&FRAG)).collect();
+            format!("{}{}", *r.pick(&["\"", "'", "\"\"\"", "''", "\"\""]), body)
+        }
+    };
+    match r.below(6) {
+        0 => format!("{} + 1", lit),
+        1 => format!("x = {}", lit),
+        2 => format!("({}) .| ", lit),
+        3 => format!("{} {}", lit, lit),
+        _ => lit,
+    }
+}
+
+/// focused alphabets: every sequence up to a longer length over the tokens of one sub-language, where the
+/// 33-class enumeration is too short to spell the interesting neighbourhoods (else after a non-conditional,
+/// restart inside a later condition, blocks around groups, apply forms inside nested expressions)
+pub const FOCUS: [(&str, &[&str]); 4] = [
+    ("conditionals", &["5", "x", "?>", "!>", "|>", "(", ")", "^~", ",", "&&"]),
+    ("blocks-and-lists", &["5", "x", "[", "]", "(", ")", ",", "+", "--", "~~"]),
+    ("expressions-and-apply", &["5", "$", "{", "}", "<~", "~>", "~~", "^~", "?>", ";"]),
+    ("separators", &["5", "x", ";", "\n\n", ";;", "(", ")", "{", "}", ","]),
+];
+
+pub fn focus_count(len: usize) -> u64 {
+    FOCUS.iter().map(|(_, a)| (1..=len).map(|l| (a.len() as u64).pow(l as u32)).sum::<u64>()).sum()
+}
+
+/// the `code`-th focused sequence (all alphabets, lengths 1..=len), tokens joined by one space
+pub fn focus_seq(len: usize, mut code: u64) -> (String, &'static str) {
+    for (name, alpha) in FOCUS.iter() {
+        for l in 1..=len {
+            let n = (alpha.len() as u64).pow(l as u32);
+            if code < n {
+                let mut parts = vec![];
+                for _ in 0..l {
+                    parts.push(alpha[(code % alpha.len() as u64) as usize]);
+                    code /= alpha.len() as u64;
+                }
+                return (parts.join(" "), name);
+            }
+            code -= n;
+        }
+    }
+    (String::new(), "none")
+}
